@@ -177,7 +177,11 @@ def run_unit(spec_path, root, seed=None, canary=True, std_contracts=None, tag=""
         _, rc2, so2, se2, _ = canary_future.result()
         info2, diags2 = _parse(so2, se2)
         errs = [d for d in diags2 if not d.get("message", "").startswith("aborting")]
-        res.canary_ok = (len(errs) == 1 and "postcondition" in errs[0].get("message", ""))
+        # the canary lemma `ensures false` must FAIL; other diagnostics of that second run (e.g. a resource limit in some
+        # function that the main run verified) say nothing about vacuity and are ignored
+        def _is_canary(d):
+            return "postcondition" in d.get("message", "") and any("vx_canary" in (t.get("text") or "") for sp in d.get("spans", []) for t in sp.get("text", []))
+        res.canary_ok = any(_is_canary(d) for d in errs)
         if not res.canary_ok:
             res.status, res.reason = "undecided", "vacuity canary did not fail as expected (contradictory axioms or preconditions?)"
     res.wall_s = time.time() - t0
